@@ -160,6 +160,16 @@ def main(argv=None):
     with ctx.Pool(jobs) as pool:
         for r in pool.imap_unordered(_worker, [(prop, c) for c in cases], chunksize=1):
             results.append(r)
+    # ---- a solver timeout under load is not a verdict: cases that ended "unknown" are decided once more, a quarter of the workers at a time
+    again = [i for i, r in enumerate(results) if r["verdict"] == "unknown"]
+    if again and len(again) <= 40:
+        by_name = {c.get("name"): c for c in cases}
+        todo = [(i, by_name.get(results[i]["name"])) for i in again]
+        todo = [(i, c) for i, c in todo if c is not None]
+        with ctx.Pool(max(1, jobs // 4)) as pool:
+            for (i, _c), r in zip(todo, pool.map(_worker, [(prop, c) for _i, c in todo], chunksize=1)):
+                r["retried_after_unknown"] = True
+                results[i] = r
     # ---- replay candidates, grouped by signature (at most 3 tries per signature)
     by_sig = {}
     for r in results:
@@ -312,6 +322,7 @@ def write_evidence(prop, tier, seed, mod, results, tv, wall, n_viol, known_hits,
             "cases": len(results),
             "cases_hold": sum(1 for r in results if r["verdict"] == "unsat"),
             "cases_violated": sum(1 for r in results if r["verdict"] == "sat"),
+            "cases_decided_on_a_second_attempt_after_a_solver_timeout": sum(1 for r in results if r.get("retried_after_unknown") and r["verdict"] != "unknown"),
             "cases_inconclusive": sum(1 for r in results if r["verdict"] in ("unknown", "inconclusive", "error")),
             "witnesses": {k: bool(v) for k, v in sorted(wit.items())},
             "functions_encoded": funcs,
